@@ -228,7 +228,7 @@ class Resources:
             elif key in data:
                 data[key] = value
             else:
-                data["extra_args"][key] = value
+                data["extra_args"] = {**data["extra_args"], key: value}
         return Resources.from_dict(data)
 
     @staticmethod
